@@ -618,7 +618,8 @@ fn load_program_from_reader<R: Read + Seek>(r: &mut R, total_len: u64) -> MResul
     let mut symbols_bytes = vec![0u8; header.symbols_len as usize];
     r.read_exact(&mut symbols_bytes)?;
     let mut cur = Cursor::new(&symbols_bytes[..]);
-    for _ in 0..(header.symbols_len / 12) {
+    // One entry is 13 bytes: 8 for the id, 1 for the mutable flag, 4 for the register (as the compiler writes them).
+    for _ in 0..(header.symbols_len / 13) {
       let id = cur.read_u64::<LittleEndian>()?;
       let mutable = cur.read_u8()? != 0;
       let reg = cur.read_u32::<LittleEndian>()?;
